@@ -140,8 +140,10 @@ def build(c, root):
         src = os.path.join(srcdir, "start.lammpstrj")
         lo = c["box_lo"]
         with open(src, "w") as fh:
-            for p, v in frames:
-                fh.write(ek.lammps_frame_text([1 + (i % 2) for i in range(n)], (p + lo).tolist(), v.tolist(), [(lo, lo + 30.0)] * 3, order=list(range(n))[::-1], trailing_id=True))
+            for j, (p, v) in enumerate(frames):
+                # (the box of the start frame need not be the one of the data file the input reads first: read_dump ... box yes)
+                L = {"same": 30.0, "other": 33.0, "grow": 30.0 + 0.6 * (j + 1)}[c.get("src_box", "same")]
+                fh.write(ek.lammps_frame_text([1 + (i % 2) for i in range(n)], (p + lo).tolist(), v.tolist(), [(lo, lo + L), (lo, lo + L), (lo, lo + L + (L != 30.0))], order=list(range(n))[::-1], trailing_id=True))
     elif eng_name == "cp2k":
         eng = ek.make_cp2k(root, ["H", "O", "C", "H"][:n], pos.tolist(), temperature=300.0, cp2k=FAKE["cp2k"], subcycles=c["subcycles"], timestep=c["dt"], sleep=c["poll"], cell_form=c.get("cell_form", "ABC"))
         from infretis.classes.engines.engineparts import write_xyz_trajectory
@@ -287,7 +289,7 @@ def cases(draw, engines):
     if c["beh"]["die_at"] is not None and draw(st.sampled_from([False, False, True])):
         c["beh"]["die_signal"] = draw(st.sampled_from([9, 6, 11]))  # killed / abort / segfault instead of an exit code
     c["twin"] = draw(st.sampled_from([False, False, True]))
-    if eng == "gromacs":
+    if eng in ("gromacs", "lammps"):
         c["src_box"] = draw(st.sampled_from(["same", "other", "grow"]))
     if eng == "cp2k":
         c["cell_form"] = draw(st.sampled_from(["ABC", "vectors", "angles"]))  # three spellings of the same 30 A cell
